@@ -465,7 +465,9 @@ func TestVerifP2cHealth(t *testing.T) {
 					res.Done(balancer.DoneInfo{})
 				}
 			}
-			c.Eval(fmt.Sprintf("gap=%v", gap), func() any { return map[string]any{"gap": gap.String(), "unhealthy_after_completions": unhealthyAfter, "score": bad.success} })
+			c.Eval(fmt.Sprintf("gap=%v", gap), func() any {
+				return map[string]any{"gap": gap.String(), "unhealthy_after_completions": unhealthyAfter, "score": bad.success}
+			})
 			if unhealthyAfter < 0 || unhealthyAfter > 8 {
 				c.Violation(fmt.Sprintf("gap=%v", gap), "never unhealthy", fmt.Sprintf("backend failing every call (completions %v apart) is still healthy after 12 rounds: score %d, unhealthy after %d", gap, bad.success, unhealthyAfter))
 				continue
@@ -496,7 +498,9 @@ func TestVerifP2cHealth(t *testing.T) {
 				total++
 			}
 			b, h1, h2 := counts[s.p.conns[0].addr.Addr], counts[s.p.conns[1].addr.Addr], counts[s.p.conns[2].addr.Addr]
-			c.Eval(fmt.Sprintf("dist gap=%v", gap), func() any { return map[string]any{"picks_of_failing": b, "picks_of_healthy": []int{h1, h2}, "draw_sequences": total} })
+			c.Eval(fmt.Sprintf("dist gap=%v", gap), func() any {
+				return map[string]any{"picks_of_failing": b, "picks_of_healthy": []int{h1, h2}, "draw_sequences": total}
+			})
 			if !(b < h1 && b < h2) {
 				c.Violation(fmt.Sprintf("gap=%v", gap), "distribution", fmt.Sprintf("over all %d draw sequences the failing backend is picked %d times, the healthy ones %d and %d", total, b, h1, h2))
 			}
@@ -521,7 +525,9 @@ func TestVerifP2cHealth(t *testing.T) {
 					break
 				}
 			}
-			c.Eval(fmt.Sprintf("fast gap=%v", gap), func() any { return map[string]any{"gap": gap.String(), "unhealthy_after_failures": after, "score": conn.success} })
+			c.Eval(fmt.Sprintf("fast gap=%v", gap), func() any {
+				return map[string]any{"gap": gap.String(), "unhealthy_after_failures": after, "score": conn.success}
+			})
 			if after < 0 {
 				c.Violation(fmt.Sprintf("fast gap=%v", gap), "never unhealthy (fast)", fmt.Sprintf("backend failing 600 calls in a row %v apart is still healthy (score %d)", gap, conn.success))
 			}
@@ -533,4 +539,74 @@ func TestVerifP2cHealth(t *testing.T) {
 // timeNowOffset: timex.Now() = virtual elapsed + a constant; pick stamps use timex.Now()
 func timeNowOffset() time.Duration {
 	return pcTimexNow() - vrt.Elapsed()
+}
+
+// every completion error the balancer can be handed: all seventeen gRPC status codes, no
+// error, and an error that carries no status.  The score of a single backend, first brought
+// to a middle value by alternating completions, must move towards 0 exactly for the codes
+// that mean the backend (not the request) is at fault - deadline exceeded, internal,
+// unavailable, data loss, unimplemented - and towards 1000 for everything else.
+func TestVerifP2cErrorCodes(t *testing.T) {
+	defer vrt.WriteReport()
+	logx.Disable()
+	if !vrt.Shard(3) {
+		return
+	}
+	c := vrt.NewCases("p2c/completion-error-codes")
+	unacceptable := map[codes.Code]bool{codes.DeadlineExceeded: true, codes.Internal: true, codes.Unavailable: true, codes.DataLoss: true, codes.Unimplemented: true}
+	type ec struct {
+		name string
+		err  error
+		bad  bool
+	}
+	var ecs []ec
+	for code := codes.OK; code <= codes.Unauthenticated; code++ {
+		var err error
+		if code != codes.OK {
+			err = status.Error(code, "x")
+		}
+		ecs = append(ecs, ec{code.String(), err, unacceptable[code]})
+	}
+	ecs = append(ecs, ec{"plain-error", fmt.Errorf("no status"), false})
+	vrt.RunOnce(vrt.Options{Name: "p2c-error-codes", Horizon: 1 << 30}, func(r *vrt.Run) {
+		for _, k := range ecs {
+			for _, gap := range []time.Duration{100 * time.Millisecond, time.Second, 5 * time.Second} {
+				s := newPcSys(r, 1)
+				conn := s.p.conns[0]
+				complete := func(err error) {
+					vrt.Advance(gap)
+					res, perr := s.p.Pick(balancer.PickInfo{Ctx: context.Background()})
+					if perr != nil {
+						r.Failf("Pick: %v", perr)
+						return
+					}
+					vrt.Advance(10 * time.Millisecond)
+					res.Done(balancer.DoneInfo{Err: err})
+				}
+				// bring the score strictly inside (0, 1000)
+				complete(nil)
+				complete(status.Error(codes.Unavailable, "x"))
+				complete(nil)
+				complete(status.Error(codes.Unavailable, "x"))
+				before := conn.success
+				if before == 0 || before >= initSuccess {
+					r.Failf("warm-up did not leave the score inside (0,1000): %d", before)
+					return
+				}
+				complete(k.err)
+				after := conn.success
+				c.Eval(fmt.Sprintf("code=%s gap=%v", k.name, gap), func() any {
+					return map[string]any{"code": k.name, "gap": gap.String(), "score_before": before, "score_after": after}
+				})
+				if k.bad && !(after < before) {
+					c.Violation(fmt.Sprintf("code=%s gap=%v", k.name, gap), "unacceptable completion", fmt.Sprintf("completion with %s moved the score %d -> %d, want towards 0", k.name, before, after))
+				}
+				// (integer score: an acceptable completion soon after the last one may round to no change)
+				if !k.bad && !(after >= before) {
+					c.Violation(fmt.Sprintf("code=%s gap=%v", k.name, gap), "acceptable completion", fmt.Sprintf("completion with %s moved the score %d -> %d, want towards 1000, never down", k.name, before, after))
+				}
+			}
+		}
+	})
+	c.Done()
 }
